@@ -921,3 +921,197 @@ def check_C18(tier):
                     "states": r["distinct"] + rr["distinct"], "transitions": r["states"] + rr["states"], "outcomes": dict(stats)},
                    time.time() - t0, len(viols))
     return 1 if new else 0
+
+
+# ---------------------------------------------------------------------------------------------- C15
+def parsed_index(q):
+    q = dict(q)
+    q["ctornames"] = [x["name"] for d in q["data"] for x in d["xtors"]]
+    q["dtornames"] = [x["name"] for d in q["codata"] for x in d["xtors"]]
+    return q
+
+
+def check_C15(tier):
+    import gen_fun, time, collections, glob
+    t0 = time.time()
+    build_harness()
+    work = fresh_dir(WORK, "C15")
+    k = T(tier, 1, 20)
+    s = seed()
+    lst, label, cls, srcof = [], {}, {}, {}
+    for pi, kw in enumerate([dict(mode="any", budget=(8, 24), wide=True), dict(mode="seq", pressure=True, budget=(8, 22)),
+                             dict(mode="any", budget=(4, 12), max_main_params=5)]):
+        for nm, src, muts in gen_fun.generate_marked(s * 100 + pi, 30 * k, **kw):
+            lst.append({"name": nm, "kind": "fun", "src": src})
+            label[nm], cls[nm], srcof[nm] = "accept", "well-typed-by-construction", src
+            for j, (c, msrc) in enumerate(muts):
+                mn = "%s_m%d" % (nm, j)
+                lst.append({"name": mn, "kind": "fun", "src": msrc})
+                label[mn], cls[mn], srcof[mn] = "reject", c, msrc
+    # the repository's own suites: accepted and rejected examples carry their labels too
+    for f in sorted(glob.glob(os.path.join(REPO, "testsuite", "success_check", "*.sc")) + glob.glob(os.path.join(REPO, "examples", "*", "*.sc"))):
+        nm = "repo_ok_" + os.path.basename(f)[:-3]
+        lst.append({"name": nm, "kind": "fun", "path": f})
+        label[nm], cls[nm], srcof[nm] = "accept", "repository-success", open(f).read()
+    for f in sorted(glob.glob(os.path.join(REPO, "testsuite", "fail_check", "*.sc"))):
+        nm = "repo_bad_" + os.path.basename(f)[:-3].replace("-", "_")
+        lst.append({"name": nm, "kind": "fun", "path": f})
+        label[nm], cls[nm], srcof[nm] = "reject", "repository-fail", open(f).read()
+    lp = os.path.join(work, "list.json")
+    json.dump(lst, open(lp, "w"))
+    art = os.path.join(work, "art")
+    sccv("pipeline", lp, art, "parsed", timeout=3000)
+    index = {c["name"]: c for c in json.load(open(os.path.join(art, "index.json")))}
+    cases, stats = [], collections.Counter()
+    for nm, e in index.items():
+        st = {x["stage"]: x for x in e["stages"]}
+        if st["parse"]["outcome"] != "ok":
+            stats["edit-does-not-parse(dropped)"] += 1
+            if label[nm] == "accept":
+                raise ToolError("constructed program does not parse: %s: %s" % (nm, st["parse"]["msg"][:200]))
+            continue
+        impl = {"ok": "accept", "error": "reject", "panic": "panic"}[st["check"]["outcome"]]
+        cases.append({"name": nm, "prog": parsed_index(json.load(open(os.path.join(art, nm + ".parsed.json")))), "label": label[nm], "impl": impl})
+    wd = os.path.join(work, "tlc")
+    os.makedirs(wd, exist_ok=True)
+    cp = os.path.join(wd, "cases.json")
+    json.dump(cases, open(cp, "w"))
+    r = tlc_batch("TypeCheck", "TypeCheck.cfg", wd, {"SCCV_CASES": cp}, len(cases), timeout=T(tier, 1500, 7000), xmx="12g")
+    viols = []
+    percls = collections.Counter()
+    for x in r["results"]:
+        stats[x["status"]] += 1
+        percls[cls[x["case"]]] += 1
+        if x["status"] == "tool":
+            rp = save_replay("C15", "tool-" + x["case"], {"program": x["case"], "class": cls[x["case"]], "why": x["why"], "source": srcof[x["case"]]})
+            raise ToolError("%s (%s, %s): %s; see %s" % (x["case"], cls[x["case"]], label[x["case"]], x["why"], rp))
+        if x["status"] == "fail":
+            kind = x["why"].split(":")[0].replace(" ", "-")
+            rp = save_replay("C15", x["case"], {"program": x["case"], "class": cls[x["case"]], "why": x["why"], "source": srcof[x["case"]],
+                                                "check": [s_ for s_ in index[x["case"]]["stages"] if s_["stage"] == "check"]})
+            viols.append({"signature": "C15:%s:%s" % (kind, cls[x["case"]]), "replay": rp, "what": "%s (%s): %s" % (x["case"], cls[x["case"]], x["why"])})
+    log("[C15] %s; classes %s" % (dict(stats), dict(percls)))
+    new = triage("C15", viols)
+    write_evidence("C15", tier, "model_checking",
+                   {"states": r["distinct"], "transitions": r["states"], "traces_validated_against_impl": len(cases),
+                    "samples": [{"class": cls[c["name"]], "label": c["label"], "impl": c["impl"], "source": srcof[c["name"]][:400]} for c in cases[1:4]],
+                    "per_class": dict(percls), "outcomes": dict(stats),
+                    "rule": "well-typed-by-construction programs and every single certainly ill-typed edit of them (21 classes, up to 3 sites per class "
+                            "and program), plus the repository's success/fail suites; three-way agreement construction label = spec/FunTyping.tla "
+                            "verdict (else tool error) = type checker verdict (else violation), judged in TLC by spec/TypeCheck.tla"},
+                   time.time() - t0, len(viols))
+    return 1 if new else 0
+
+
+# ---------------------------------------------------------------------------------------------- C16
+FMT_PREAMBLE = ("data D { A, B(x: i64) }\ndata L[A] { N, Co(h: A, t: L[A]) }\ncodata C { d: i64, e(y: i64): i64 }\n"
+                "codata Fn[A, B] { ap(x: A): B }\ndef f(x: i64): i64 { x }\ndef g(x: i64, y: i64): i64 { x }\n")
+
+
+def check_C16(tier):
+    import re, time, collections, glob, subprocess, gen_fun
+    t0 = time.time()
+    build_harness()
+    work = fresh_dir(WORK, "C16")
+    # 1. token sequences derived from the grammar specification
+    wd = os.path.join(work, "grammar")
+    r = run_tlc("FunGrammar", "FunGrammar.cfg", wd, {}, workers=8, timeout=1500)
+    if r["states"] is None or r["rc"] != 0:
+        raise ToolError("FunGrammar did not complete: %s" % r["errors"][:2])
+    terms = [json.loads(json.loads(l.strip())[len("TERM "):]) for l in open(r["out"]) if l.startswith('"TERM ')]
+    terms = sorted(set(tuple(t) for t in terms))
+    if len(terms) < 10000:
+        raise ToolError("only %d terms derived" % len(terms))
+    rng = rng_for("C16")
+    if tier == "quick":
+        short = [t for t in terms if len(t) <= 14]
+        terms = rng.sample(short, min(len(short), 1500)) + rng.sample(terms, 2500)
+    sources = [{"name": "g%d" % i, "src": FMT_PREAMBLE + "def main(x: i64): i64 { " + " ".join(t) + " }\n"} for i, t in enumerate(terms)]
+    # 2. generated programs and the repository's sources
+    for nm, src, a in gen_fun.generate(seed() * 10 + 1, T(tier, 150, 3000), mode="any", pressure=True, budget=(8, 30), wide=True):
+        sources.append({"name": "p_" + nm, "src": src})
+    for f in sorted(glob.glob(os.path.join(REPO, "examples", "*", "*.sc")) + glob.glob(os.path.join(REPO, "testsuite", "*", "*.sc")) +
+                    glob.glob(os.path.join(REPO, "testsuite", "end_to_end", "*", "*.sc"))):
+        sources.append({"name": "repo_" + os.path.basename(f)[:-3].replace("-", "_"), "src": open(f).read()})
+    widths = [1, 2, 3, 4, 6, 8, 10, 12, 16, 20, 25, 30, 40, 50, 60, 80, 100, 120, 160, 200]
+    indents = [0, 1, 2, 3, 4, 6, 8]
+    grid = [[w, i] for w in widths for i in indents]
+    runs, nrec = [], 0
+    chunks = T(tier, 8, 1)
+    for ci in range(chunks):
+        part = sources[ci::chunks]
+        cfgs = grid if tier == "thorough" else rng.sample(grid, 14)
+        sp, op = os.path.join(work, "fmt%d.json" % ci), os.path.join(work, "fmt%d.ndjson" % ci)
+        json.dump({"sources": part, "configs": cfgs}, open(sp, "w"))
+        sccv("fmt-roundtrip", sp, op, timeout=T(tier, 1500, 20000))
+        for l in open(op):
+            x = json.loads(l)
+            nrec += len(x["records"])
+            runs.append(x)
+    srcof = {s_["name"]: s_["src"] for s_ in sources}
+    # 3. the in-place mode of the real command-line tool on scratch copies
+    b = subprocess.run(["cargo", "build", "--offline"], cwd=REPO, stdout=subprocess.PIPE, stderr=subprocess.STDOUT, text=True)
+    scc = os.path.join(REPO, "target", "debug", "scc")
+    if b.returncode != 0 or not os.path.exists(scc):
+        raise ToolError("cannot build the scc binary: " + b.stdout[-800:])
+    sdir = os.path.join(work, "inplace")
+    os.makedirs(sdir, exist_ok=True)
+    cli_sources = [s_ for s_ in sources if s_["name"].startswith(("repo_", "p_"))][:T(tier, 25, 200)] + sources[:T(tier, 25, 200)]
+    for k_, s_ in enumerate(cli_sources):
+        w, i = rng.choice(widths), rng.choice(indents)
+        fp = os.path.join(sdir, "f%d.sc" % k_)
+        open(fp, "w").write(s_["src"])
+        rec = {"w": w, "i": i, "reparse": True, "tree": True, "fix": True, "nonblank": True, "text": ""}
+        pr = subprocess.run([scc, "-n", "fmt", "--inplace", "--width", str(w), "--indent", str(i), fp], stdout=subprocess.PIPE, stderr=subprocess.PIPE, timeout=60)
+        parse0 = "ok" if pr.returncode == 0 else "scc fmt failed: " + pr.stderr.decode("latin-1")[:200]
+        if pr.returncode == 0:
+            t1 = open(fp).read()
+            pr2 = subprocess.run([scc, "-n", "fmt", "--inplace", "--width", str(w), "--indent", str(i), fp], stdout=subprocess.PIPE, stderr=subprocess.PIPE, timeout=60)
+            rec["reparse"] = pr2.returncode == 0
+            rec["fix"] = pr2.returncode == 0 and open(fp).read() == t1
+            # the tree is compared through the harness' dump of the parsed program: original source vs the file the tool wrote
+            sp2, op2 = os.path.join(sdir, "c%d.json" % k_), os.path.join(sdir, "c%d.ndjson" % k_)
+            json.dump({"sources": [{"name": "a", "src": s_["src"]}, {"name": "b", "src": t1}], "configs": []}, open(sp2, "w"))
+            sccv("fmt-roundtrip", sp2, op2)
+            ab = [json.loads(l) for l in open(op2)]
+            rec["tree"] = ab[0]["parse"] == "ok" and ab[1]["parse"] == "ok" and ab[0]["treehash"] == ab[1]["treehash"]
+            rec["text"] = "" if rec["tree"] and rec["fix"] else t1
+        runs.append({"name": "cli_%d_%s" % (k_, s_["name"]), "parse": parse0, "records": [rec]})
+        srcof["cli_%d_%s" % (k_, s_["name"])] = s_["src"]
+    runs = [x for x in runs if not (x["parse"] != "ok" and x["name"].startswith(("repo_", "cli_")) and "fail_check" in srcof.get(x["name"], ""))]
+    tdir = os.path.join(work, "tlc")
+    os.makedirs(tdir, exist_ok=True)
+    cp = os.path.join(tdir, "runs.json")
+    json.dump([{"name": x["name"], "parse": x["parse"] if x["parse"] == "ok" else x["parse"][:150],
+                "records": [{k2: v for k2, v in rr.items() if k2 != "text"} for rr in x["records"]]} for x in runs], open(cp, "w"))
+    r2 = tlc_batch("TraceFmt", "TraceFmt.cfg", tdir, {"SCCV_CASES": cp}, len(runs), timeout=3000)
+    viols, stats = [], collections.Counter()
+    textof = {x["name"]: next((rr["text"] for rr in x["records"] if rr.get("text")), "") for x in runs}
+    for x in r2["results"]:
+        stats[x["status"]] += 1
+        if x["status"] == "unparsable":
+            if x["case"].startswith("g"):
+                raise ToolError("spec/FunGrammar.tla derived a program the parser rejects (%s): %s" % (x["case"], srcof[x["case"]][-200:]))
+            stats["unparsable-repository-or-generated-source(skipped)"] += 1
+            continue
+        if x["status"] == "rejected":
+            src = srcof[x["case"]]
+            # known lexical defect: a zero-test is printed as `t op 0`; when t itself ends in the literal 0 (or is 0) the text
+            # `0 op 0` is lexed as the fused token `0 op` followed by 0.  Recognised on the printed text / the source.
+            zpat = r"(?<![A-Za-z0-9_])0\s*(==|!=|<=|>=|<|>)\s*0(?![0-9A-Za-z_])"
+            zz = re.search(zpat, textof.get(x["case"]) or "") or re.search(zpat, src)
+            sig = "C16:zero-test-next-to-literal-zero" if zz else "C16:%s" % lockstep.normalize_why(re.sub(r" at width.*$", "", x["why"]))
+            rp = save_replay("C16", x["case"], {"source": src, "why": x["why"], "printed": textof.get(x["case"])})
+            viols.append({"signature": sig, "replay": rp, "what": "%s: %s" % (x["case"], x["why"])})
+    log("[C16] %d programs (%d from the grammar), %d renderings; %s" % (len(runs), len(terms), nrec, dict(stats)))
+    new = triage("C16", viols)
+    write_evidence("C16", tier, "exploration",
+                   {"evaluations": nrec + len(cli_sources), "distinct_nontrivial": len({s_["src"] for s_ in sources}),
+                    "rule": "token sequences of all term forms nested in every operand position to depth 2 derived by TLC from spec/FunGrammar.tla "
+                            "(quick: 4000 sampled), generated programs and the repository's sources; each rendered by the real printer at "
+                            "sampled (thorough: all 140) width x indent pairs, reparsed, compared as trees, printed again; in-place mode of "
+                            "the real scc binary on scratch copies; records judged by spec/TraceFmt.tla; distinct = distinct source texts",
+                    "samples": [sources[0]["src"][-120:], sources[len(sources) // 2]["src"][-200:]],
+                    "states": r["distinct"] + r2["distinct"], "transitions": r["states"] + r2["states"], "outcomes": dict(stats)},
+                   time.time() - t0, len(viols), assumptions=["the layout algorithm of the pretty crate is not modelled, only its effect on the token stream"])
+    return 1 if new else 0
